@@ -265,5 +265,14 @@ func forge(key []byte, st forgedState) []byte {
 	}
 	m := hmac.New(sha256.New, key)
 	m.Write(body)
-	return append(m.Sum(nil), body...)
+	out := append(m.Sum(nil), body...)
+	forgedWith[string(out)] = append([]byte(nil), key...)
+	return out
 }
+
+// forgedWith remembers under which secret the harness made each forged state of the running case
+// (cleared by newWorld). A forgery made with the real secret of some instance - "another instance's
+// secret" aimed at a target that must refuse it - is, for THAT instance and its secret domain, not a
+// forgery at all: whoever holds an instance's secret can mint its state. If such a value later
+// reaches that domain, its acceptance says nothing about the server (no verdict, counted).
+var forgedWith = map[string][]byte{}
